@@ -550,6 +550,9 @@ type defScript struct {
 	// Prior: another client (crypto/tls's own hello, HTTP/2) has been fingerprinted and served before the
 	// connection under test arrives, and stays connected
 	Prior bool `json:"prior,omitempty"`
+	// Args: command-line options that have nothing to do with what these checks look at (whose fingerprint,
+	// which forwarding headers, which counter): the answers must not depend on them
+	Args []string `json:"args,omitempty"`
 }
 
 type defObs struct {
@@ -570,6 +573,27 @@ func genDef(t *rapid.T) defScript {
 	if s.Conn.SplitHello > 0 && s.Conn.NReq < 2 {
 		s.Conn.NReq = 2 // (the second request on a connection whose fingerprints cannot be computed is the interesting one)
 	}
+	probe := false
+	if rapid.IntRange(0, 2).Draw(t, "args") == 0 {
+		// (the HTTP/2 preamble of these clients has no PRIORITY frames: the limit does not change the expected value)
+		if v := rapid.SampledFrom([]string{"", "0", "1", "10000"}).Draw(t, "maxprio"); v != "" {
+			s.Args = append(s.Args, "-max-h2-priority-frames="+v)
+		}
+		if v := rapid.SampledFrom([]string{"", "true", "false"}).Draw(t, "probeflag"); v != "" {
+			s.Args = append(s.Args, "-enable-kubernetes-probe="+v)
+			probe = v == "true"
+		}
+		if rapid.Bool().Draw(t, "verbose") {
+			s.Args = append(s.Args, "-verbose")
+		}
+		if v := rapid.SampledFrom([]string{"", "5s", "90s"}).Draw(t, "idle"); v != "" {
+			s.Args = append(s.Args, "-timeout-http-idle="+v)
+		}
+	}
+	if !probe && rapid.IntRange(0, 3).Draw(t, "probe-ua") == 0 {
+		// looks like a kubelet probe, but the probe switch is off: an ordinary request
+		s.Conn.ExtraHeaders = append(s.Conn.ExtraHeaders, [2]string{"User-Agent", "kube-probe/1.27"})
+	}
 	s.Conn.PeerIP = rapid.SampledFrom([]string{"198.51.100.7", "10.1.2.3", "2001:db8::7"}).Draw(t, "ip")
 	n := rapid.IntRange(0, 4).Draw(t, "nspoof")
 	for i := 0; i < n; i++ {
@@ -584,7 +608,7 @@ func genDef(t *rapid.T) defScript {
 func runDef(t *testing.T, col *vstat.Collector, s defScript) *defObs {
 	o := &defObs{metrics: map[string]float64{}}
 	msg := rig.Bubble(t, func() {
-		p := rig.StartProxy(rig.ProxyOpts{Build: wired(nil)})
+		p := rig.StartProxy(rig.ProxyOpts{Build: wired(s.Args)})
 		reg := PrometheusRegistry
 		if s.Prior {
 			if pc, err := rig.Connect(p, []string{"h2"}, &net.TCPAddr{IP: net.IPv4(192, 0, 2, 77), Port: 7777}); err == nil {
@@ -666,6 +690,14 @@ func defCase(col *vstat.Collector, s defScript, o *defObs) {
 	if s.Prior && s.Conn.SplitHello > 0 {
 		cl = append(cl, "two-record-hello-after-another-client-was-fingerprinted")
 	}
+	for _, a := range s.Args {
+		cl = append(cl, "option:"+a)
+	}
+	for _, h := range s.Conn.ExtraHeaders {
+		if h[0] == "User-Agent" {
+			cl = append(cl, "probe-user-agent-with-probe-support-off")
+		}
+	}
 	col.Case(fmt.Sprintf("%x|%v|%d|%v|%d", o.res.Record, s.Conn.Segments, s.Conn.NReq, s.Conn.ExtraHeaders, s.NFail), len(s.Conn.ExtraHeaders) > 0 || s.NFail > 0,
 		map[string]any{"proto": o.res.Proto, "requests": len(o.res.Requests), "client_headers": s.Conn.ExtraHeaders, "failed_conns": s.NFail, "record_len": len(o.res.Record)}, cl...)
 }
@@ -680,7 +712,7 @@ func wantFingerprints(o *defObs) map[string]string {
 
 func wiringDefaults(t *testing.T, col *vstat.Collector, judge func(s defScript, o *defObs) *vstat.Violation) {
 	rig.Certs()
-	col.Mandatory("proto:h2", "proto:http/1.1", "spoofed-headers:2", "failed-conns:2")
+	col.Mandatory("proto:h2", "proto:http/1.1", "spoofed-headers:2", "failed-conns:2", "option:-max-h2-priority-frames=0", "probe-user-agent-with-probe-support-off")
 	vstat.Run(t, vstat.Spec[defScript]{Col: col, Quick: 300, Thorough: 6000, Gen: genDef,
 		Exec: func(s defScript) *vstat.Violation {
 			o := runDef(t, col, s)
